@@ -839,6 +839,11 @@ fn run_rd(c: &Case) -> Obs {
                     }
                 }
             }
+            // FASTA: a CR at the beginning of a sequence line (followed by a byte other than LF) is kept by
+            // the async reader and skipped by the sync one
+            if fmt == "fasta" && (0..file.len()).any(|i| (i == 0 || file[i - 1] == b'\n') && file[i] == b'\r' && i + 1 < file.len() && file[i + 1] != b'\n') {
+                return Obs::fail("-", "async-fasta-bol-cr-kept", format!("cap={} {detail} file={}", buf_cap(seed), crate::short_hex(&file)));
+            }
             // FASTA: a CR LF pair split over two fills of the AsyncBufRead keeps the CR in the sequence
             if fmt == "fasta" && file.contains(&b'\r') {
                 let strip = |t: &T| -> T { t.iter().map(|x| if x.starts_with("seq:") { x.replace("0d", "") } else { x.clone() }).collect() };
